@@ -60,6 +60,14 @@ Value& REPLACEExpression::value(Context & ctx) const
     default:
       throw RuntimeError(EXC_RT_FUNC_ARG_TYPE_S, KEYWORDS[oper]);
     }
+    /* nothing can be replaced by an empty search string (and the loop below
+     * would never advance) */
+    if (a1.literal()->empty())
+    {
+      if (val.lvalue())
+        return ctx.allocate(val.clone());
+      return val;
+    }
     Literal * tmp = new Literal();
     size_t p = 0;
     while (p < val.literal()->size())
